@@ -95,7 +95,7 @@ def tree(c):
             enc = v.to_ical() if hasattr(v, "to_ical") else v
             dt = getattr(v, "dt", None)
             off = dt.utcoffset() if hasattr(dt, "utcoffset") else None
-            props.append((k, type(v).__name__, sorted(params.items()) if params else [], enc, off))
+            props.append((k, type(v).__name__, sorted(params.items()) if params else [], enc, off, v if isinstance(v, str) else None))
     return (c.name, props, [tree(s) for s in c.subcomponents], list(c.errors))
 
 
